@@ -702,10 +702,10 @@ pub fn xml_string_attr_faults(part: &str, data: &[u8], caps: &Caps, ch: &mut Cho
 }
 
 const INJECT: [(&str, &[&str]); 12] = [
-    ("table:table-cell", &["table:number-columns-repeated=\"4294967295\"", "table:number-columns-repeated=\"100000000\"", "table:number-columns-repeated=\"-1\"", "office:value-type=\"string\"", "office:value=\"1e999\"", "office:boolean-value=\"maybe\""]),
+    ("table:table-cell", &["table:number-columns-repeated=\"4294967295\"", "table:number-columns-repeated=\"100000000\"", "table:number-columns-repeated=\"-1\"", "table:number-columns-repeated=\"18446744073709551615\"", "table:number-columns-repeated=\"2147483648\"", "office:value-type=\"string\"", "office:value=\"1e999\"", "office:boolean-value=\"maybe\""]),
     ("table:covered-table-cell", &["table:number-columns-repeated=\"100000000\""]),
-    ("table:table-row", &["table:number-rows-repeated=\"4294967295\"", "table:number-rows-repeated=\"50000000\"", "table:number-rows-repeated=\"x\""]),
-    ("text:s", &["text:c=\"4294967295\"", "text:c=\"200000000\""]),
+    ("table:table-row", &["table:number-rows-repeated=\"4294967295\"", "table:number-rows-repeated=\"50000000\"", "table:number-rows-repeated=\"x\"", "table:number-rows-repeated=\"18446744073709551615\""]),
+    ("text:s", &["text:c=\"4294967295\"", "text:c=\"200000000\"", "text:c=\"18446744073709551615\"", "text:c=\"9223372036854775807\"", "text:c=\"2147483648\"", "text:c=\"-1\""]),
     ("table:table", &["table:name=\"\"", "table:style-name=\"nope\""]),
     ("c", &["t=\"s\"", "t=\"bogus\"", "s=\"4294967295\"", "r=\"XFD1048576\"", "r=\"A4294967295\"", "t=\"e\"", "t=\"b\"", "t=\"d\""]),
     ("row", &["r=\"4294967295\"", "r=\"0\"", "r=\"1048577\""]),
@@ -1094,6 +1094,39 @@ pub fn rgce_truncations(label: &str, s: &[u8], biff: bool, mk: &dyn Fn(Edit, Str
         }
     }
     v
+}
+
+/// Every cell record type at every short length: the first cell record of a sheet is replaced by a
+/// record of type T and length L (its body: the original bytes, cut or zero-padded), for all the
+/// cell and formula record types and L in 0..=24.  A table of minimum lengths that is one too
+/// small for one type only shows at exactly that type and length.
+pub fn type_length_sweep(label: &str, s: &[u8], biff: bool, mk: &dyn Fn(Edit, String) -> StoredFault) -> Vec<Vec<StoredFault>> {
+    let mut out = Vec::new();
+    let recs = if biff { biff_records(s) } else { xlsb_records(s) };
+    let types: &[u32] = if biff { &[0x0006, 0x00BD, 0x00BE, 0x00FD, 0x0201, 0x0203, 0x0204, 0x0205, 0x0207, 0x027E, 0x00E5, 0x0200] } else { &[0x00, 0x01, 0x02, 0x03, 0x04, 0x05, 0x06, 0x07, 0x08, 0x09, 0x0A, 0x0B] };
+    let host = recs.iter().find(|r| r.off + r.hdr + r.len <= s.len() && if biff { matches!(r.typ, 0x0203 | 0x027E | 0x00FD | 0x0204 | 0x0205 | 0x00BD | 0x0006) } else { (0x02..=0x0B).contains(&r.typ) });
+    let r = match host {
+        Some(r) => r,
+        None => return out,
+    };
+    let body = &s[r.off + r.hdr..r.off + r.hdr + r.len];
+    for t in types {
+        for len in 0..=24usize {
+            let mut rec: Vec<u8> = if biff {
+                let mut h = (*t as u16).to_le_bytes().to_vec();
+                h.extend_from_slice(&(len as u16).to_le_bytes());
+                h
+            } else {
+                vec![*t as u8, len as u8]
+            };
+            rec.extend((0..len).map(|i| body.get(i).copied().unwrap_or(0)));
+            out.push(vec![
+                mk(Edit::Delete { off: r.off, len: r.hdr + r.len }, format!("{}:type-len (removal of the first cell record of {})", if biff { "biff" } else { "xlsb" }, label)),
+                mk(Edit::Insert { off: r.off, bytes: rec }, format!("{}:type-len {} first cell record at {} replaced by a record of type {:#06x} and length {}", if biff { "biff" } else { "xlsb" }, label, r.off, t, len)),
+            ]);
+        }
+    }
+    out
 }
 
 /// Complexity bombs inside record streams (all "light": short call list, budgets proportional
@@ -1812,6 +1845,11 @@ pub fn sites(fx: &Fixture, parts: &mut Parts, tier: Tier) -> Vec<SiteGroup> {
                         for g in record_bombs(n, &data, false, thorough, &mk) {
                             all.push(SiteGroup { inner: None, faults: g, light: true, scaling: false });
                         }
+                        if n.contains("worksheets/") {
+                            for g in type_length_sweep(n, &data, false, &mk) {
+                                all.push(SiteGroup { inner: None, faults: g, light: false, scaling: false });
+                            }
+                        }
                     }
                 }
             }
@@ -1824,6 +1862,9 @@ pub fn sites(fx: &Fixture, parts: &mut Parts, tier: Tier) -> Vec<SiteGroup> {
                             let mk = move |ed: Edit, why: String| StoredFault { layer: Layer::CfbStream { stream: nm.clone() }, edit: Some(ed), why };
                             for g in record_bombs(&e.name, st, true, thorough, &mk) {
                                 all.push(SiteGroup { inner: None, faults: g, light: true, scaling: false });
+                            }
+                            for g in type_length_sweep(&e.name, st, true, &mk) {
+                                all.push(SiteGroup { inner: None, faults: g, light: false, scaling: false });
                             }
                         }
                     }
